@@ -68,6 +68,14 @@ func (fc *FnCtx) instr(in ssa.Instruction, st *State) {
 		fc.vals[x] = v
 	case *ssa.ChangeInterface:
 		v := fc.val(x.X)
+		// Go's type system: a non-nil value of static interface type I holds a
+		// dynamic type that implements I (so a concrete type that does not is
+		// excluded - decided by go/types, see implFact).
+		if it, ok := x.X.Type().Underlying().(*types.Interface); ok && it.NumMethods() > 0 && v.T != nil && !fc.dry {
+			fn := fc.implementsFn(x.X.Type())
+			fc.S.Assert(smt.Implies(smt.Neq(v.T, smt.IntLit(0)), smt.App(fn, smt.Bool, fc.dtype(v.T))), "static interface type of "+x.X.Name())
+			fc.Used["Go's type system: a non-nil value of static interface type I holds a dynamic type that implements I (go/types decides which of the concrete types named in contracts do)"] = true
+		}
 		v.GoT = x.Type()
 		fc.vals[x] = v
 	case *ssa.MakeInterface:
@@ -142,6 +150,29 @@ func (fc *FnCtx) instr(in ssa.Instruction, st *State) {
 		fc.runDefers(st, g, where)
 	case *ssa.Go:
 		fc.abstr("go statement (sequential model: no-op)")
+		// the spawned call is a site for call-site assertions - what holds at the
+		// moment the goroutine is started - under the name "go <callee>"
+		if !fc.dry {
+			cc := &x.Call
+			var name string
+			var args []Val
+			switch {
+			case cc.IsInvoke():
+				name = fc.P.TypeStr(cc.Value.Type(), nil) + "." + cc.Method.Name()
+				args = append(args, fc.val(cc.Value))
+			case cc.StaticCallee() != nil:
+				name = fc.nameOfFn(cc.StaticCallee())
+			default:
+				name = fc.funcValueName(cc.Value)
+			}
+			for _, a := range cc.Args {
+				args = append(args, fc.val(a))
+			}
+			name = "go " + name
+			fc.callOrd[name]++
+			fc.callGuard[fmt.Sprintf("%s#%d", name, fc.callOrd[name])] = g
+			fc.callAsserts(name, fc.callOrd[name], true, args, nil, cc, x, st, g, where)
+		}
 	case *ssa.Send:
 		fc.abstr("channel send (no-op)")
 	case *ssa.Select:
@@ -185,6 +216,18 @@ func (fc *FnCtx) alloc(x *ssa.Alloc, st *State) Val {
 	fc.inAlloc = true
 	fc.storeLoc(st, v.Loc, elem, z, smt.True, "")
 	fc.inAlloc = false
+	// "The zero value for Buffer is an empty buffer ready to use" (package bytes):
+	// a freshly allocated one is owned by this function and holds nothing.
+	if nt, ok := elem.(*types.Named); ok && nt.Obj().Pkg() != nil && nt.Obj().Pkg().Path() == "bytes" && nt.Obj().Name() == "Buffer" {
+		gv, hasV := fc.P.Ghost["view"]
+		if _, has := fc.P.Ghost["owned"]; has && hasV {
+			fc.getHeap(st, "ghost:owned", smt.Bool)
+			fc.getHeap(st, "ghost:view", specSort(gv.Type))
+			fc.writeKey(st, "ghost:owned", ref, smt.True)
+			fc.writeKey(st, "ghost:view", ref, smt.SEmpty)
+			fc.Used["the zero value for bytes.Buffer is an empty buffer ready to use (package documentation): a freshly allocated one is owned and empty"] = true
+		}
+	}
 	return v
 }
 
